@@ -1,7 +1,7 @@
 import IwModel.Lemmas.BinnRoundtrip
 import IwModel.Lemmas.BinnPrint
 import IwModel.Lemmas.JsonPtrRfc
-import IwModel.Model.TreeClone
+import IwModel.Lemmas.TreeClone
 /-! # C14 — text, tree and binary forms of a document agree, and so do path look-ups
 
 Property theorems only; helper lemmas live in `IwModel/Lemmas`. `Binn.wf v` is the quantifier of the property
@@ -184,6 +184,12 @@ theorem clone_binn_eq (v : JVal) (bs : Bytes) (hc : isContainer v = true) (he : 
     rw [hp]
     simp only [hi.2]
   | _ => simp [isContainer] at hc
+
+/-- **clone of the tree form** (`jbn_clone`): the visitor that rebuilds the hierarchy from the level changes of a
+    pre-order walk (push on `lvl > pos`, pop `pos - lvl` parents on `lvl < pos`) returns a tree equal to its
+    source, for every document. (Independence of the copy is a memory property: the tie destroys the source
+    under ASan before the clone is used.) -/
+theorem clone_tree_eq (v : JVal) : TreeClone.clone v = some v := TreeClone.clone_eq v
 
 /-- the writer refuses (JBL_ERROR_CREATION) exactly the objects whose keys do not fit: a key longer than 255
     bytes or equal to an earlier key of the same object ignoring ASCII case -/
